@@ -4,6 +4,7 @@
 -/
 import Drv.Util
 import Acpi.Spec.AmlFrame
+import Acpi.Spec.ResTemplate
 import Drv.AmlScalars
 import Acpi.Aml.Term
 import Acpi.Spec.Aml
@@ -113,43 +114,6 @@ def altOf : Aml → Option Aml
   | .node .usize i b k => some (.node .u64 i b k)
   | _ => none
 
-def isDescriptor : Op → Bool
-  | .mem32 | .io | .irq | .reg | .asmem | .asio | .asbus => true
-  | _ => false
-
-/-- the oracle for a resource template as the root object -/
-def rtOracle (kids : List Aml) (bs : Bytes) : Option String :=
-  match bufferPayloadAny bs with
-  | none => some "not a DefBuffer whose BufferSize equals its payload"
-  | some payload =>
-    match Spec.Res.walk (payload.length + 1) payload with
-    | none => some "the descriptors' length fields do not tile the buffer up to the end tag"
-    | some items =>
-      if items.length ≠ kids.length + 1 then some s!"walk finds {items.length} items for {kids.length} descriptors + end tag"
-      else if items.getLast? ≠ some [0x79, 0x00] then some "end tag is not 79 00"
-      else
-        let bad := (List.range kids.length).find? fun i =>
-          match kids.getD i (.node .zero [] [] .nil) with
-          | .node op ints _ _ =>
-            match Spec.Res.rows op ints with
-            | some (total, rs) => (Spec.conforms total rs (items.getD i [])).isSome
-            | none => true
-        match bad with
-        | some i => some s!"descriptor #{i} does not conform to its reference layout"
-        | none => none
-where
-  bufferPayloadAny (bs : Bytes) : Option Bytes :=
-    match bs with
-    | 0x11 :: rest =>
-      match Spec.PkgLength.decode rest with
-      | some (total, w) =>
-        if total ≠ rest.length then none else
-        match Spec.Int.decode (rest.drop w) with
-        | some (n, payload) => if n = payload.length then some payload else none
-        | none => none
-      | none => none
-    | _ => none
-
 /-- case `<env> term…` impl `<hex|panic> <alt> <sinks>` -/
 def checkAml (case impl : List String) : List Fail :=
   match case with
@@ -174,7 +138,7 @@ def checkAml (case impl : List String) : List Fail :=
                  (if m ≠ bs then [⟨"corr", tag, "model", s!"model {bytesToHex (m.take 64)}… impl {bytesToHex (bs.take 64)}… (first difference at {firstDiffB m bs})"⟩] else []) ++
                  (match t with
                   | .node op ints _ _ =>
-                    if isDescriptor op then
+                    if Spec.isDescriptor op then
                       -- a bare resource descriptor is not an AML term: check it against its layout (C10)
                       match Spec.Res.rows op ints with
                       | some (total, rs) =>
@@ -208,7 +172,7 @@ def checkAml (case impl : List String) : List Fail :=
               (if isRt then
                  match t with
                  | .node _ _ _ kids =>
-                   match rtOracle kids.toList bs with
+                   match Spec.rtOracle kids.toList bs with
                    | some e => [⟨"prop", "C10", "resource-template", e⟩]
                    | none => []
                else [])
